@@ -399,6 +399,59 @@ pub fn remove_then_evict(b: u64, which: usize, rng: &mut Rng, out: &mut Out) -> 
     ops
 }
 
+/// Directed: a bucket of twenty nodes heard at t0 - 1 s (nineteen) and t0 (X, the last one); X is heard again at t0 + 8 s, the
+/// nineteen others at t0 + 20 s, and a newcomer for the bucket arrives at t0 + 905 s: X was heard 897 s ago - not stale - and stays.
+pub fn reheard_then_evict(b: u64, rng: &mut Rng, out: &mut Out) -> u64 {
+    v::reset_clock();
+    let tid = rng.id();
+    let mut u: Vec<UNode> = vec![];
+    for i in 0..21usize {
+        let id = id_at_distance(&tid, 160, rng);
+        u.push(UNode { id, addr: SocketAddrV4::new(Ipv4Addr::new(10, 42, 0, i as u8 + 1), 6881), sec: true });
+    }
+    let mut index = HashMap::new();
+    for (i, x) in u.iter().enumerate() {
+        index.entry((x.id, x.addr)).or_insert(i);
+    }
+    out.line(&json!({"e":"reset","b":b,"tid":id_json(&tid),
+        "nodes": u.iter().map(|x| json!({"id":id_json(&x.id),"ip":x.addr.ip().to_string(),"port":x.addr.port(),"sec":x.sec})).collect::<Vec<_>>()}));
+    let mut table = RoutingTable::new(Id::from(tid));
+    let mut ops = 0u64;
+    let mut emit = |table: &RoutingTable, mut ev: Value, out: &mut Out| {
+        ev["proj"] = proj(table, &index);
+        ev["size"] = json!(table.size());
+        ev["is_empty"] = json!(table.is_empty());
+        ev["iter"] = json!(table.nodes().map(|x| index.get(&(*x.id().as_bytes(), x.address())).map(|i| *i as i64 + 1).unwrap_or(-1)).collect::<Vec<i64>>());
+        ev["to_bootstrap"] = json!(table.to_bootstrap().len());
+        out.line(&ev);
+        1u64
+    };
+    let mut add = |table: &mut RoutingTable, i: usize, out: &mut Out| -> u64 {
+        let ret = table.add(Node::new(Id::from(u[i].id), u[i].addr));
+        emit(table, json!({"e":"op","op":"add","n":i + 1,"ret":ret}), out)
+    };
+    for i in 0..19 {
+        ops += add(&mut table, i, out);
+    }
+    for (ms, who) in [(1000u64, vec![19usize]), (8000, vec![19]), (12_000, (0..19).collect::<Vec<usize>>()), (885_000, vec![20])] {
+        v::advance(Duration::from_millis(ms));
+        ops += {
+            let mut ev = json!({"e":"op","op":"advance","ms":ms});
+            ev["proj"] = proj(&table, &index);
+            ev["size"] = json!(table.size());
+            ev["is_empty"] = json!(table.is_empty());
+            ev["iter"] = json!(table.nodes().map(|x| index.get(&(*x.id().as_bytes(), x.address())).map(|i| *i as i64 + 1).unwrap_or(-1)).collect::<Vec<i64>>());
+            ev["to_bootstrap"] = json!(table.to_bootstrap().len());
+            out.line(&ev);
+            1
+        };
+        for i in who {
+            ops += add(&mut table, i, out);
+        }
+    }
+    ops
+}
+
 pub fn run(args: &Args) -> i32 {
     let seed = args.u64("seed", 1);
     let mut rng = Rng::new(seed.wrapping_mul(31).wrapping_add(11));
@@ -435,6 +488,10 @@ pub fn run(args: &Args) -> i32 {
     if big > 0 && (only.is_none() || only == Some(n + big)) {
         ops += rekey_merge(n + big, &mut rng, &mut out);
         directed = 1;
+    }
+    if big > 0 && (only.is_none() || only == Some(n + big + 4)) {
+        ops += reheard_then_evict(n + big + 4, &mut rng, &mut out);
+        directed += 1;
     }
     if big > 0 {
         for (k, which) in [0usize, 7, 19].iter().enumerate() {
